@@ -188,6 +188,10 @@ class DataSet(BaseObject):
         Reload specified data. This should not be called externally.
         """
         for fileName in fileNames:
+            # a pending deletion of this name concerned the file that has been
+            # replaced by the one taken over now: nothing is left to delete
+            # (a save would remove the file the font has just read)
+            self._scheduledForDeletion.pop(fileName, None)
             self._data[fileName] = _dataDict()
             data = self[fileName]
 
